@@ -43,7 +43,7 @@ EXPECTED_PROBES = [f"fault_cut_{c}_{k}" for c in CUT_CLASSES for k in ("fin", "r
     "probe_retry_path", "probe_server_error", "probe_server_shutdown", "probe_peer_push_handled", "probe_cut_with_calls_pending",
     "probe_big_response", "probe_big_request", "probe_unencodable_request", "probe_broken_on_error_ran",
     "probe_many_unencodable_requests_then_a_call", "net_cut_timeout", "probe_two_connections", "line_preemptions_hot", "probe_bidirectional", "probe_reverse_call",
-    "probe_server_initiated_close", "net_stall", "probe_request_with_effect"]
+    "probe_server_initiated_close", "net_stall", "probe_request_with_effect", "probe_slow_on_close_ran"]
 WALL_CAP = {"quick": 400, "thorough": 3600}
 
 
@@ -151,7 +151,24 @@ def scenario(ch, cfg):
         w.run(until=lambda: env.listener_up(), max_steps=2000)
 
     # ---- client connects the way a user does
+    # 2 runs in 7 the client is made through the Python API with application callbacks that take a while (they await):
+    # whatever the callbacks do, and however long, the callers are failed as always
+    api_client = ch.weighted([5, 2], "api_client") == 1
+    slow = {"n": 1 + ch.draw(6, "onclose.yields")}
+
+    async def slow_on_close(client):
+        import asyncio as _a
+        stats["probe_slow_on_close_ran"] += 1
+        for _ in range(slow["n"]):
+            await _a.sleep(0)
+
     def connect():
+        if api_client:
+            k = env.client.klong
+            sysd = k[".system"]
+            state["nc"] = ipc.NetworkClient.create_from_addr(sysd["ioloop"], sysd["klongloop"], k, sysd["closeEvent"], PORT,
+                                                             on_close=slow_on_close).run_client()
+            return
         state["nc"] = env.client.klong(f".cli({PORT})")
     ca = w.spawn("connect", connect)
     r = w.run(until=lambda: ca.done, max_steps=20000)
@@ -353,7 +370,7 @@ def scenario(ch, cfg):
             if bidir and close_side:
                 # the server closes this connection through its handle (what its shutdown event does): the same
                 # handshake, started from the other end
-                stats["probe_server_initiated_close", "net_stall", "probe_request_with_effect"] += 1
+                stats["probe_server_initiated_close", "net_stall", "probe_request_with_effect", "probe_slow_on_close_ran"] += 1
                 ncs[1].close()
             else:
                 nc.close()
